@@ -169,33 +169,115 @@ def rule_merge(repo, rule):
         rule.violation(bv.loc() if bv else BR, BR + ":BranchingValues.backup", "", "backup does not cover every tracked variable", "merge/backup-all")
 
 
+def _protocol_events(fi, state_attrs):
+    """Straight-line simulation of a branch-protocol method (after helper inlining): events in execution order
+       ("exit", i) | ("call", name, i) | ("enter", poly, i) | ("store", attr, poly-or-"None", i_store, i_computed)
+    Boolean-gate polynomials over the symbols of `state_attrs` (self.icond -> I ...) and of evaluated condition callables
+    (a parameter p called as p() -> symbol C:p).  i_computed = index of the statement that evaluated the stored expression."""
+    from .c02 import _gate_poly
+    from ..poly import P
+    env = {a: P.sym(sym) for a, sym in state_attrs.items()}      # text -> poly
+    born = {}                                                    # local name -> statement index where its value was computed
+    ev = []
+    params = set(fi.params[1:])
+
+    def val(e, i):
+        if isinstance(e, ast.Constant) and e.value is None:
+            return "None", i
+        if isinstance(e, ast.Name) and e.id in born and e.id in env:
+            return env[e.id], born[e.id]
+        if isinstance(e, ast.Call) and isinstance(e.func, ast.Name) and e.func.id in params and not e.args:
+            ev.append(("call", e.func.id, i))
+            return P.sym("C:" + e.func.id), i
+        class _E(dict):
+            pass
+        e2 = dict(env)
+        p = _gate_poly_text(e, e2)
+        return p, i
+
+    def _gate_poly_text(e, e2):
+        # _gate_poly with attribute texts (self.icond) as symbols
+        t = norm(e)
+        if t in e2:
+            return e2[t]
+        if isinstance(e, ast.BinOp):
+            l, r = _gate_poly_text(e.left, e2), _gate_poly_text(e.right, e2)
+            if l is None or r is None:
+                return None
+            if isinstance(e.op, ast.BitAnd) or isinstance(e.op, ast.Mult):
+                return l * r
+            if isinstance(e.op, ast.Sub):
+                return l - r
+            if isinstance(e.op, ast.Add):
+                return l + r
+            if isinstance(e.op, ast.BitOr):
+                return l + r - l * r
+            return None
+        if isinstance(e, ast.UnaryOp) and isinstance(e.op, ast.Invert):
+            v = _gate_poly_text(e.operand, e2)
+            return None if v is None else P.const(1) - v
+        if isinstance(e, ast.Constant) and isinstance(e.value, int):
+            return P.const(e.value)
+        return None
+    for i, s in enumerate(fi.node.body):
+        if isinstance(s, ast.Expr) and isinstance(s.value, ast.Call):
+            f = norm(s.value.func)
+            if f in ("self.exit", "super().exit"):
+                ev.append(("exit", i))
+            elif f in ("self.enter", "super().enter") and s.value.args:
+                p, _b = val(s.value.args[0], i)
+                ev.append(("enter", p, i))
+        elif isinstance(s, ast.Assign) and len(s.targets) == 1:
+            t = s.targets[0]
+            p, b = val(s.value, i)
+            if isinstance(t, ast.Name):
+                if p is not None:
+                    env[t.id] = p
+                    born[t.id] = b
+                else:
+                    env.pop(t.id, None)
+            elif isinstance(t, ast.Attribute) and norm(t) in state_attrs:
+                ev.append(("store", norm(t), p, i, b))
+    return ev
+
+
 def rule_algebra(repo, rule):
     ic = repo.cls(BR, "IfContext")
     wc = repo.cls(BR, "WhileContext")
     el = ic.methods["_elif"]
-    body = [norm(s) for s in el.node.body]
-    nw = el.params[1]
-    pos = {"exit": None, "call": None, "icond": None, "enter": None, "store": None}
-    for i, t in enumerate(body):
-        if t == "self.exit()":
-            pos["exit"] = i
-        if t == "%s = %s()" % (nw, nw):
-            pos["call"] = i
-        if t.replace(" ", "") in ("nwicond=self.icond&1-%s" % nw, "nwicond=self.icond&(1-%s)" % nw, "nwicond=self.icond&~%s" % nw):
-            pos["icond"] = i
-        if t.replace(" ", "") == "self.enter(self.icond&%s)" % nw:
-            pos["enter"] = i
-        if t == "self.icond = nwicond":
-            pos["store"] = i
-    if None not in pos.values() and pos["exit"] < pos["call"] < pos["icond"] < pos["enter"] < pos["store"]:
-        rule.ok(el.loc(), el.fq, "exit; c = c(); next = icond & (1-c); enter(icond & c); icond = next",
-                "elif runs under 'no earlier branch and this condition'; the remainder excludes it")
+    from ..poly import P
+    I, nwp = P.sym("I"), el.params[1]
+    C = P.sym("C:" + nwp)
+    ev = _protocol_events(el, {"self.icond": "I"})
+    kinds = [e[0] for e in ev]
+    desc = "; ".join("%s%s" % (e[0], "(%s)" % e[1] if e[0] in ("enter", "call") else ("[%s := %s]" % (e[1], e[2]) if e[0] == "store" else "")) for e in ev)
+    problems = []
+    enter = [e for e in ev if e[0] == "enter"]
+    store = [e for e in ev if e[0] == "store"]
+    ex = [e for e in ev if e[0] == "exit"]
+    call = [e for e in ev if e[0] == "call" and e[1] == nwp]
+    if not (ex and call and enter and store):
+        problems.append("the protocol steps exit / evaluate condition / enter / store remainder are not all present")
     else:
-        rule.violation(el.loc(), el.fq, "; ".join(body), "elif condition algebra / ordering is wrong (expected exit, evaluate, "
-                       "icond & (1-c) computed before entering icond & c)", "algebra/_elif")
+        if not (ex[0][-1] < call[0][2] <= enter[0][2]):
+            problems.append("the condition is not evaluated after leaving the previous branch and before entering the next")
+        if enter[0][1] is None or enter[0][1] != I * C:
+            problems.append("the branch is entered under %s, not under (no earlier branch) & (this condition)" % (enter[0][1],))
+        if store[0][2] is None or store[0][2] == "None" or store[0][2] != I * (P.const(1) - C):
+            problems.append("the remainder condition is %s, not (no earlier branch) & not (this condition)" % (store[0][2],))
+        elif not (store[0][4] < enter[0][2] < store[0][3]):
+            problems.append("the remainder is not computed before the guard is entered (or not stored after it)")
+    if not problems:
+        rule.ok(el.loc(), el.fq, desc[:200], "elif runs under 'no earlier branch and this condition'; the remainder, computed before "
+                "entering, excludes it")
+    else:
+        rule.violation(el.loc(), el.fq, desc[:200], "elif condition algebra / ordering is wrong: " + "; ".join(problems), "algebra/_elif")
     es = ic.methods["_else"]
+    ev = _protocol_events(es, {"self.icond": "I"})
+    ex = [e for e in ev if e[0] == "exit"]
+    enter = [e for e in ev if e[0] == "enter"]
     body = [norm(s) for s in es.node.body]
-    if body[:2] == ["self.exit()", "self.enter(self.icond)"]:
+    if ex and enter and ex[0][-1] < enter[0][2] and enter[0][1] is not None and enter[0][1] == I:
         rule.ok(es.loc(), es.fq, "exit; enter(icond)", "else runs under 'no earlier branch'")
     else:
         rule.violation(es.loc(), es.fq, "; ".join(body), "else does not enter the accumulated negated condition", "algebra/_else")
